@@ -38,21 +38,25 @@ theorem next_eof_only_at_end (C : Classes) (z : Z) (h : (next C z).1.ty = .eof) 
   obtain ⟨h1, h2⟩ := hr.eof h
   refine ⟨h1, h2, ?_⟩
   have ht := hr.adv.total
-  have hs := hr.stop_eq
+  have hs := hr.stop_eof h
   rw [h2, hs]
   simp only [Z.input, List.length_append, List.length_reverse]
   rw [h1] at ht
   simp at ht
   omega
 
-/-- Inside: the token lies between the old and the new position, its `End` *is* the new
-    position, the new position is inside the input, and the input itself is untouched. -/
+/-- Inside: the token lies between the old and the new position: its `End` lies at or before the
+    new position — *at* it for every token but an account token (behind whose name `scanAccount`
+    steps over a single blank) and a text token (behind whose value `scanText` steps over white
+    space; see `token_end_is_lexeme_end`) —, the new position is inside the input, and the input
+    itself is untouched. -/
 theorem next_inside (C : Classes) (z : Z) :
     z.off ≤ (next C z).1.pos.off ∧ (next C z).1.pos.off ≤ (next C z).1.stop.off ∧
-      (next C z).1.stop.off = (next C z).2.off ∧ (next C z).2.off ≤ z.input.length ∧
-      (next C z).2.input = z.input := by
+      (next C z).1.stop.off ≤ (next C z).2.off ∧
+      ((next C z).1.ty ≠ .account → (next C z).1.ty ≠ .text → (next C z).1.stop.off = (next C z).2.off) ∧
+      (next C z).2.off ≤ z.input.length ∧ (next C z).2.input = z.input := by
   have hr := next_res C z
-  refine ⟨hr.pos_ge, hr.pos_le, hr.stop_eq, ?_, hr.adv.input⟩
+  refine ⟨hr.pos_ge, hr.pos_le, hr.stop_le, fun h1 h2 => by rw [next_stop C z h1 h2]; rfl, ?_, hr.adv.input⟩
   have ht := hr.adv.total
   simp only [Z.off, Z.input, List.length_append, List.length_reverse]
   omega
@@ -65,7 +69,7 @@ theorem next_nonempty (C : Classes) (z : Z) (h : (next C z).1.ty ≠ .eof) :
 /-- Monotone: the next token never starts before the previous one ended. -/
 theorem next_monotone (C : Classes) (z : Z) :
     (next C z).1.stop.off ≤ (next C (next C z).2).1.pos.off := by
-  have h1 := (next_res C z).stop_eq
+  have h1 := (next_res C z).stop_le
   have h2 := (next_res C (next C z).2).pos_ge
   omega
 
@@ -104,13 +108,15 @@ theorem lex_no_overlap (C : Classes) (input : Bytes) :
 /-! ### cover -/
 
 /-- **Cover**, for every input, no guard: every byte that no token extent `[Pos.off, End.off)`
-    contains is a blank (0x20) or a tab (0x09) — exactly the bytes `skipSpaces` steps over
-    between tokens and before the EOF.  (Blanks that `scanText` / `scanAccount` trim from the token *value* lie
-    inside the token's extent and are covered.) -/
+    contains is a blank (0x20) or a tab (0x09) — exactly the bytes `skipSpaces` steps over between
+    tokens and before the EOF, and the single blank `scanAccount` steps over behind an account
+    name — or, directly behind a Text token, part of a run of white-space runes (a text token
+    ends with its trimmed value: what `strings.TrimSpace` cut off at the end lies behind it). -/
 theorem tokens_cover (C : Classes) (input : Bytes) : covered input (lexAll C input) = true := by
-  rw [covered, List.all_eq_true, lexAll_eq_lexS]
-  intro c hc
-  exact lexS_covered C input.length (Z.init input) (by simp [Z.init]) c (by simpa [Z.init, Z.input] using hc)
+  rw [covered, lexAll_eq_lexS]
+  have := lexS_gapsOk C input.length (Z.init input) (by simp [Z.init]) none [] [] (by simp [Z.init])
+    (gapOk_nil none)
+  simpa [Z.init, Z.input] using this
 
 /-- **Tiling**: the blank/tab runs and the token extents, concatenated in stream order, are the
     input — every byte lies in exactly one gap or in exactly one token. -/
@@ -121,7 +127,7 @@ theorem tokens_tile (C : Classes) (input : Bytes) : pieces input 0 (lexAll C inp
 /-- the one-character tokens `( ) [ ] |` cover their character (regression example for the
     repaired finding `punct-empty-extent`) -/
 example : (lexAll Classes.ascii (asc "a | b")).map (fun t => (t.ty, t.pos.off, t.stop.off)) =
-    [(.text, 0, 2), (.pipe, 2, 3), (.text, 4, 5), (.eof, 5, 5)] := by decide +kernel
+    [(.text, 0, 1), (.pipe, 2, 3), (.text, 4, 5), (.eof, 5, 5)] := by decide +kernel
 
 /-! ### lines -/
 
